@@ -307,7 +307,7 @@ Fixpoint c11_g_bad (i : nat) (seen : list tr) (l : list tr) : option nat :=
 Definition holds_latest (seen : list tr) (view : tr) : bool :=
   if v_height view =? 0 then true else
   match last_for seen (TL [TN 0; view]) with
-  | Some lv => vv_ver lv =? tn (nth_tr view 12)
+  | Some lv => (vv_ver lv =? tn (nth_tr view 12)) && view_grows view (vv_view lv)   (* same version AND nothing the mirror holds is missing *)
   | None => false
   end.
 
